@@ -805,6 +805,15 @@ def _tot_lines():
     for tok, n in (('-', 200), ('(', 120), ('%', 200), ('+', 200), ('sqrt ', 90), ('1^', 120), ('m ', 200), ('1|', 150), ('- -', 150)):
         add(tok * n + '1')
     add('(' * 100 + '1' + ')' * 100)
+    # long names in scripts with multi-byte characters, at every byte alignment (messages that echo or shorten the input)
+    for pad in range(0, 5):
+        for ch, n in (('\u3042', 30), ('\u044f', 45), ('\U0001F600', 20), ('e\u0301', 40), ('\u00e9', 70), ('\u05d0', 50)):
+            add('x' * pad + ch * n)
+            add('1 ' + 'x' * pad + ch * n + ' -> m')
+            add('"' + 'x' * pad + ch * n + '"')
+            add("units for " + 'x' * pad + ch * n)
+            add('x' * pad + ch * n + ' of water')
+            add('#' + 'x' * pad + ch * n + '#')
     # fields at the edge of their integer types (inputs of repaired defects and their neighbours)
     for x in ('#2020-01-01 00:00:00.1234567890#', '#2020-01-01 00:00:00.12345678901234567890#', '#2020-01-01 00:00:00 +9999999:00#',
               '#2020-01-01 00:00:00 -2147483647:59#', '#2020-01-01 00:00:00 +596523:59#', '#2020-01-01 00:00:00 +9999#', '#jan 1, -2147483647 bc#',
@@ -1977,3 +1986,79 @@ def replay(rep):  # noqa: F811
         print('replay: %s' % ('violation reproduced on the real code' if bad else 'not reproduced'))
         return 1 if bad else 0
     return _rp29(rep)
+
+
+# ---- exactcases (C01): compound expressions whose exact value is known independently (python Fractions), chosen so that
+# intermediate results feed operators that look at their representation (integrality, reducedness, sign, size) ----
+def _exact_cases():
+    F = _F
+    cases = [
+        # sums of fractions with equal denominators feeding operators that need an integer
+        ('2^(1|2 + 1|2)', F(2)), ('2^(3|4 + 1|4)', F(2)), ('1 << (0.5 + 0.5)', F(2)), ('8 >> (1.5 + 1.5)', F(1)), ('(3|4 + 1|4) and 1', F(1)),
+        ('(0.1 + 0.4) * 2', F(1)), ('(7|10 - 2|10) * 2', F(1)), ('(1|3 + 2|3) xor 3', F(2)), ('(5|2 - 1|2) or 1', F(3)), ('(0.5 + 0.5) mod 1', F(0)),
+        ('7 mod (0.5 + 0.5)', F(0)), ('10^(1.5 - 0.5)', F(10)), ('(2|4)^2', F(1, 4)), ('(6|4 + 2|4) / 2', F(1)),
+        # remainders of non-integers and signs
+        ('7.5 mod 2', F(3, 2)), ('10.25 mod 3', F(5, 4)), ('(-25|2) mod 1', F(-1, 2)), ('-7 mod 3', F(-1)), ('7 mod -3', F(1)), ('7.5 mod 0.5', F(0)),
+        ('22|7 mod 1|7', F(0)), ('22|7 mod 1', F(1, 7)), ('1500 mod 1000', F(500)), ('-0.75 mod 0.5', F(-1, 4)),
+        # bit operators only on integers
+        ('2.5 and 3', 'ERR'), ('7|2 xor 1', 'ERR'), ('(-2.5) and 3', 'ERR'), ('1e-1 xor 0xff', 'ERR'), ('3 or 0.5', 'ERR'), ('6 and 3', F(2)), ('6 or 3', F(7)),
+        ('6 xor 3', F(5)), ('-6 and 3', F(2)), ('(2^70 + 5) and 7', F(5)), ('2^70 or 1', F(2**70 + 1)), ('1 << 0.5', 'ERR'), ('1 >> 1|3', 'ERR'),
+        # radix literals around the machine word sizes
+        ('0xffffffffffffffff', F(2**64 - 1)), ('0x8000000000000000', F(2**63)), ('0x7fffffffffffffff', F(2**63 - 1)), ('0xffffffffffffffff + 1', F(2**64)),
+        ('0x10000000000000000', F(2**64)), ('0o1777777777777777777777', F(2**64 - 1)), ('0o1000000000000000000000', F(2**63)),
+        ('0b' + '1' * 64, F(2**64 - 1)), ('0b1' + '0' * 63, F(2**63)), ('0xffffffff', F(2**32 - 1)), ('0x100000000', F(2**32)), ('0x80000000', F(2**31)),
+        ('0xdeadbeefcafebabe1234', F(0xdeadbeefcafebabe1234)), ('-0x8000000000000000', F(-2**63)), ('0xff ^ 2', F(255**2)),
+        # `|` binds tighter than `^`'s right operand only through the ladder: a^b|c is (a^b)/c ... and neighbours
+        ('2^3|4', F(2)), ('2^4|2', F(8)), ('6^4|2', F(648)), ('2^3^2|4', F(128)), ('1|2^2', F(1, 4)), ('3|4 5', F(15, 4)), ('2 3|4', F(3, 2)), ('1|2 3|4', F(3, 8)),
+        ('2^-1|2', F(1, 4)), ('4|2^2', F(1)), ('-1|2', F(-1, 2)), ('1|-2', F(-1, 2)), ('10|4 / 5', F(1, 2)), ('10 / 4|5', F(25, 2)), ('2|3 * 3|2', F(1)),
+        # long exact chains
+        ('1|3 + 1|3 + 1|3', F(1)), ('0.1 + 0.2 - 0.3', F(0)), ('1e30 + 1 - 1e30', F(1)), ('(1|7)^3 * 343', F(1)), ('2^64 / 2^62', F(4)), ('(2|3)^-2', F(9, 4)),
+        ('1.5e3 / 3e2', F(5)), ('0.000001 * 1e6', F(1)), ('123456789 * 987654321', F(123456789 * 987654321)), ('-(-(-3))', F(-3)), ('--3', F(3)), ('2 - -3', F(5)),
+    ]
+    return cases
+
+
+def _exactcases_witness():
+    if build_core() != 0:
+        return None
+    for q, want in _exact_cases():
+        (ln, text, raw) = run_queries([q])[0]
+        first = (text.splitlines() or [''])[0]
+        bad = None
+        if text.startswith('PANIC') or text.startswith('TIMEOUT'):
+            bad = first
+        elif want == 'ERR':
+            if not text.startswith('ERR'):
+                bad = 'expected an error, got: ' + first
+        else:
+            w = '%d/%d' % (want.numerator, want.denominator)
+            if raw is None:
+                bad = 'expected the exact value %s, got: %s' % (w, first)
+            else:
+                got = raw.split(' | ')[0].strip().rstrip(' |')
+                if got != w:
+                    bad = 'expected the exact value %s, got RAW %s' % (w, raw)
+        if bad:
+            return {'replayer': 'query', 'input': {'query': q, 'expected': 'ERR' if want == 'ERR' else str(want)}, 'output': text, 'why': bad, 'cmd': '%s %r' % (QUERY_BIN, q)}
+    return None
+
+
+_sf30 = search_family
+
+
+def search_family(fam, prop):  # noqa: F811
+    if fam == 'exactcases':
+        return _exactcases_witness()
+    return _sf30(fam, prop)
+
+
+_fw31 = find_witness
+
+
+def find_witness(o, rep):  # noqa: F811
+    w = _fw31(o, rep)
+    if w:
+        return w
+    if rep.get('property') == 'C01' or o.get('unit') in ('bigwrap', 'arith', 'parser', 'lexer'):
+        return _exactcases_witness()
+    return None
